@@ -480,6 +480,82 @@ def c06_obj(ctx, case):
     ctx.nontrivial(changed >= 1 and len(set(np.round(np.asarray(vec, dtype=float), 12).tolist())) >= 2)
 
 
+# ---- a parameter changed while the object is in a non-native layout, no read in between, then the layout assigned again ----
+def _est_obj(kind, x, nfft, fs):
+    if kind == "pburg":
+        return spectrum.pburg(x, 4, NFFT=nfft, sampling=fs, scale_by_freq=False)
+    if kind == "pyule":
+        return spectrum.pyule(x, 3, NFFT=nfft, sampling=fs, scale_by_freq=False)
+    if kind == "pma":
+        return spectrum.pma(x, 3, 8, NFFT=nfft, sampling=fs, scale_by_freq=False)
+    return spectrum.Periodogram(x, NFFT=nfft, sampling=fs, window="hamming", scale_by_freq=False)
+
+
+def enum_pending(tier):
+    for kind in ("pburg", "Periodogram", "pyule", "pma"):
+        for real in (True, False):
+            for n, nfft in ((16, 16), (20, 32), (32, 32), (21, 33)):
+                for s1 in SIDES:
+                    for change in ("sampling", "NFFT*2", "NFFT=None", "NFFT=nextpow2", "NFFT same int"):
+                        for s2 in SIDES:
+                            for last in ("attr", "get"):
+                                yield {"kind": kind, "real": real, "n": n, "nfft": nfft, "s1": s1, "change": change, "s2": s2, "last": last}
+
+
+@sub("C06.pending", enum=enum_pending, exhaustive=True, shards_quick=8, shards_thorough=8,
+     doc="estimator object put in layout s1, then sampling or NFFT assigned (another value, or the current one spelled None / "
+         "'nextpow2' / as the same integer) *without reading*, then layout s2 assigned or asked for: values, length and axis are "
+         "those of a fresh object with the final parameters converted directly to s2")
+def c06_pending(ctx, case):
+    real, n, nfft, s1, s2 = case["real"], case["n"], case["nfft"], case["s1"], case["s2"]
+    rng = np.random.default_rng(600 + n + nfft)
+    x = rng.standard_normal(n) + np.cos(0.9 * np.arange(n))
+    if not real:
+        x = x + 1j * rng.standard_normal(n)
+    fs = 2.0
+    ctx.cls(case["kind"], "real" if real else "complex", "s1=" + s1, case["change"], "s2=" + s2, case["last"])
+    if not real and "onesided" in (s1, s2):
+        ctx.exclude("one-sided layout of complex data (refused)")
+        return
+    p = _est_obj(case["kind"], x, nfft, fs)
+    _ = p.psd
+    p.sides = s1
+    _ = p.psd
+    nfft2, fs2 = nfft, fs
+    if case["change"] == "sampling":
+        fs2 = 5.0
+        p.sampling = fs2
+    elif case["change"] == "NFFT*2":
+        nfft2 = 2 * nfft
+        p.NFFT = nfft2
+    elif case["change"] == "NFFT=None":
+        nfft2 = n                                   # "None": the record length
+        p.NFFT = None
+    elif case["change"] == "NFFT=nextpow2":
+        nfft2 = 1 << int(np.ceil(np.log2(n)))
+        p.NFFT = "nextpow2"
+    else:
+        p.NFFT = int(str(nfft))
+    ctx.nontrivial(s1 != ("onesided" if real else "twosided"))
+    q = _est_obj(case["kind"], x, nfft2, fs2)
+    exp = np.asarray(q.get_converted_psd(s2), dtype=float)
+    fexp = np.asarray(q.frequencies(s2), dtype=float)
+    sig = {"clause": "pending", "change": case["change"], "same": s1 == s2}
+    if case["last"] == "get":
+        got = np.asarray(p.get_converted_psd(s2), dtype=float)
+    else:
+        p.sides = s2
+        got = np.asarray(p.psd, dtype=float)
+        ctx.check(p.sides == s2, "sides reads %r after assigning %r" % (p.sides, s2), sig=sig)
+        fr = np.asarray(p.frequencies(), dtype=float)
+        ctx.check(fr.shape == fexp.shape and np.allclose(fr, fexp, rtol=1e-12, atol=0), "%s: after %s and sides = %r frequencies() has %d entries "
+                  "starting %s, a fresh object converted to %r has %d starting %s" % (case["kind"], case["change"], s2, len(fr), fr[:2].tolist(), s2, len(fexp), fexp[:2].tolist()), sig=sig)
+    ctx.check(got.shape == exp.shape, "%s in layout %s, then %s without a read, then %s %r: %d values, a fresh object with the final parameters "
+              "converted to %r has %d" % (case["kind"], s1, case["change"], "sides =" if case["last"] == "attr" else "get_converted_psd", s2, len(got), s2, len(exp)), sig=sig)
+    ctx.close(got, exp, "%s in layout %s, then %s without a read, then %r vs a fresh object converted directly" % (case["kind"], s1, case["change"], s2),
+              rtol=1e-10, atol=1e-12 * float(np.max(np.abs(exp))), sig=sig)
+
+
 # ---- the three frequency axes for every NFFT ---------------------------------
 def enum_axis(tier):
     top = 4096 if tier == "thorough" else 1024
